@@ -309,7 +309,12 @@ pub struct SizeClass;
 impl SizeClass {
     /// `big_permille`: share (in 1/1000) of frames of 60..70 KiB (crossing the 64 KiB mark)
     pub fn draw(rng: &mut Rng, big_permille: u32) -> usize {
-        if big_permille > 0 && rng.chance(1, 3000) {
+        Self::draw_ex(rng, big_permille, true)
+    }
+
+    /// `mib`: allow the rare frames of 128 KiB .. 4 MiB (not where a run re-executes its history per fault point)
+    pub fn draw_ex(rng: &mut Rng, big_permille: u32, mib: bool) -> usize {
+        if mib && big_permille > 0 && rng.chance(1, 3000) {
             // sizes around powers of two from 128 KiB to 4 MiB (buffer capacities, bypass thresholds);
             // the heavier weights sit at 1 MiB
             let e = *rng.pick(&[17u32, 18, 19, 20, 20, 20, 21, 22]);
